@@ -286,7 +286,7 @@ impl Check for C07Check {
     }
     fn cases(&self, tier: Tier) -> u64 {
         match tier {
-            Tier::Quick => 2_000,
+            Tier::Quick => 10_000,
             Tier::Thorough => 50_000,
         }
     }
